@@ -313,6 +313,79 @@ fn eval_case_inner(line: &str) -> String {
             });
             r.unwrap_or_else(|| "PANIC".to_string())
         }
+        "WIRES" => {
+            // several messages written one after the other to a byte stream with Frame::write and read back with
+            // Frame::read: each comes back as itself, nothing is left over
+            let msgs: Vec<Message<'static>> = t[1..].iter().map(|s| msg_of_str(s)).collect();
+            let r = guarded(|| {
+                let mut stream: Vec<u8> = vec![];
+                for m in &msgs {
+                    if Frame::from(m.clone()).write(&mut stream).is_err() {
+                        return "ER WRITE".to_string();
+                    }
+                }
+                let mut cur = std::io::Cursor::new(stream);
+                let mut outs = vec![];
+                for _ in &msgs {
+                    outs.push(match Frame::read(&mut cur) {
+                        Ok(f) => format!("OK {}", str_msg(&Message::from(f))),
+                        Err(e) => str_ferr(&e),
+                    });
+                }
+                let left = cur.get_ref().len() as u64 - cur.position();
+                format!("{} | left={}", outs.join(" ; "), left)
+            });
+            r.unwrap_or_else(|| "PANIC".to_string())
+        }
+        "MT" => {
+            // MT threads iters: many threads encoding and decoding DIFFERENT messages at the same time; every thread
+            // must get its own messages back (the library has no business sharing state between calls)
+            let nthreads: usize = num(t[1]);
+            let iters: usize = num(t[2]);
+            let handles: Vec<std::thread::JoinHandle<Option<String>>> = (0..nthreads)
+                .map(|ti| {
+                    std::thread::spawn(move || {
+                        let mut rng = crate::rng::Rng::new(ti as u64, 77);
+                        for i in 0..iters {
+                            let m = match (ti + i) % 5 {
+                                0 => format!("HE.{}", rng.below(65536)),
+                                1 => format!("RS.{}.{}", rng.below(65536), STATES[(i % 13) as usize].1),
+                                2 => format!("AO.{}.{}", rng.below(65536), OPS[(i % 6) as usize].1),
+                                3 => format!("DC.{}", rng.below(65536)),
+                                _ => {
+                                    let n = rng.below(40) as usize;
+                                    format!("SD.{}.{}", rng.below(65536), hex_of_bytes(&rng.bytes(n)))
+                                }
+                            };
+                            let msg = msg_of_str(&m);
+                            let back = std::panic::catch_unwind(|| {
+                                let wire = Frame::from(msg_of_str(&m)).to_bytes_with_newline();
+                                Frame::from_bytes(&wire).map(Message::from)
+                            });
+                            match back {
+                                Ok(Ok(b)) if b == msg => {}
+                                Ok(Ok(b)) => return Some(format!("thread {} sent {} got {}", ti, m, str_msg(&b))),
+                                Ok(Err(e)) => return Some(format!("thread {} sent {} got {}", ti, m, str_ferr(&e))),
+                                Err(_) => return Some(format!("thread {} sent {} and the library panicked", ti, m)),
+                            }
+                        }
+                        None
+                    })
+                })
+                .collect();
+            let mut bad: Option<String> = None;
+            for h in handles {
+                match h.join() {
+                    Ok(None) => {}
+                    Ok(Some(s)) => bad = bad.or(Some(s)),
+                    Err(_) => bad = bad.or(Some("a thread died".to_string())),
+                }
+            }
+            match bad {
+                None => "OK".to_string(),
+                Some(s) => format!("MIXED-UP {}", s),
+            }
+        }
         "ST" => {
             let b = bytes_of_hex(t[1]);
             match guarded(|| SignType::from_bytes(&b)) {
